@@ -30,6 +30,10 @@ type c19Case struct {
 	// well-formed packet under the right key and is waiting for its continuation (the handler registered
 	// one); Seq is then at least 3
 	Waiting bool `json:"waiting,omitempty"`
+	// Behind: this many octets of the client's next packet (another session, same wrong key) arrive in the
+	// same read as the packet, directly behind it (a client that opens two sessions in one write); applied
+	// when the packet is a key mismatch: the one error packet is still owed
+	Behind int `json:"behind,omitempty"`
 }
 
 // seen computes the bytes the server sees after removing its own pad.
@@ -118,6 +122,7 @@ func genC19(t *rapid.T) c19Case {
 		Flags:        rapid.SampledFrom([]byte{0, 0, 0, 4, 1, 5}).Draw(t, "flags"),
 		Session:      genSession(t),
 	}
+	c.Behind = rapid.SampledFrom([]int{0, 0, 0, 1, 12, 30, 200}).Draw(t, "behind")
 	c.ClientSecret = c.ServerSecret
 	switch rapid.IntRange(0, 7).Draw(t, "kind") {
 	case 7: // the server sees lengths that only add up in too narrow an integer type
@@ -194,6 +199,14 @@ func runC19(t failer, c c19Case) model.Class {
 			t.Fatalf("HARNESS-BUG: the opening packet of the waiting session was refused (closed=%v err=%v)", wclosed, err)
 		}
 		warm = 1
+	}
+	if c.Behind > 0 && class == model.Mismatch && !clearFlag {
+		ev.Class("mismatch-with-more-input-behind-it")
+		next := model.Frame(c.ClientSecret, model.Header{Version: 0xc0, Type: c.Type, Seq: 1, Session: c.Session ^ 0x0f0f}, consistentBody(c.Type, 40, []byte{9}))
+		if c.Behind < len(next) {
+			next = next[:c.Behind]
+		}
+		wire = append(append([]byte{}, wire...), next...)
 	}
 	pkts, rest, closed, err := d.send(wire)
 	if err != nil {
